@@ -31,10 +31,31 @@ Definition agree (rs : list (res Z)) (o : obs) : bool :=
   | _, _ => false
   end.
 
+(* the words come from the uses; the build also fails when a definition nobody uses cannot be evaluated
+   (every symbol is forced at link time): [close] appends one use per definition *)
+Definition expect_closed (nuses : nat) (rs : list (res Z)) : expected :=
+  match expect rs with
+  | ExpOk _ => expect (firstn nuses rs)
+  | ExpFail => ExpFail
+  | ExpBroken => ExpBroken
+  end.
+
+(* a forced definition may be out of the 16-bit range without harm: only Ok/Err matters for it *)
+Definition soften (nuses : nat) (rs : list (res Z)) : list (res Z) :=
+  firstn nuses rs ++ map (fun r => match r with Ok _ => Ok 0 | x => x end) (skipn nuses rs).
+
+Definition agree_closed (nuses : nat) (rs : list (res Z)) (o : obs) : bool :=
+  match expect_closed nuses (soften nuses rs), o with
+  | ExpOk ws, ObsOk ws' => list_eqb Z.eqb ws ws'
+  | ExpFail, ObsFail => true
+  | _, _ => false
+  end.
+
 Definition judge (c : list stmt * obs) : N :=
   let ss := fst c in
   let f := run_bound ss in
-  code_of (agree (lazy_run f ss) (snd c)) (agree (final_run f ss) (snd c)).
+  let n := length (uses_of ss) in
+  code_of (agree_closed n (lazy_run f (close ss)) (snd c)) (agree_closed n (final_run f (close ss)) (snd c)).
 
 (* the Gallina move_def against the harness's own: the moved program as the harness built it *)
 Definition stmt_eqb (a b : stmt) : bool :=
